@@ -13,7 +13,7 @@ def start_sites(r, actor):
     """(bb, term, what) of every site in the actor body that starts work: creation of the script future, call of the
     incremental runner, call of a local function that reaches a process spawn"""
     f = r.f
-    spawn_bodies = {b.name for (b, bb, t) in r.spawn_sites()}
+    spawn_bodies = {b.name for (b, bb, t) in r.spawn_raw()}
     incr = {r.fn_of(b).name for b in r.incremental_runners()}
     out = []
     for bb, t in actor.calls():
